@@ -52,8 +52,8 @@ theorem extends_allocView (st : Heap × List (Name × Ref)) (nv : Name × AccVie
     Extends st.1 (allocView st nv).1 := by
   unfold allocView
   split
-  · exact (extends_alloc _ _).trans (extends_alloc _ _)
-  · exact extends_alloc _ _
+  · exact ⟨_, List.append_assoc _ _ _⟩
+  · exact ⟨_, rfl⟩
 
 theorem extends_layout (w : World) (cv : ClassV) : Extends w.heap (layout w cv).heap := by
   show Extends w.heap (layoutAcc w cv (layoutDecl w cv)).1
@@ -95,7 +95,7 @@ theorem viewAt_congr {h h' : Heap} {r : Ref} (e : ∀ x ∈ reachAcc h r, h'[x]?
     simp only
     cases hd : a.dtype with
     | none => rfl
-    | some rd => simp only; rw [dtAt_congr (e rd (dtype_mem_reachAcc ha hd))]
+    | some rd => simp only [treeAt]; rw [dtAt_congr (e rd (dtype_mem_reachAcc ha hd))]
 
 /-! ### records of the owners that are not the target -/
 
@@ -239,5 +239,246 @@ theorem frame_step (T : Tables) (w : World) (op : Op) (r : Ref) (hr : r < w.heap
         · rfl
       · rfl
     · rfl
+
+/-! ### preservation of `Bounded` and `Separated` -/
+
+theorem reach_congr {w w' : World} {o : Owner} (hroots : w'.roots o = w.roots o)
+    (hcells : ∀ r ∈ w.roots o, w'.heap[r]? = w.heap[r]?) : reach w' o = reach w o := by
+  unfold reach
+  rw [hroots]
+  generalize w.roots o = l at hcells
+  induction l with
+  | nil => rfl
+  | cons a l ih =>
+    simp only [List.flatMap_cons]
+    rw [reachAcc_congr (hcells a List.mem_cons_self), ih (fun r hr => hcells r (List.mem_cons_of_mem _ hr))]
+
+theorem root_lt {w : World} (hb : Bounded w) {o : Owner} {r : Ref} (hr : r ∈ w.roots o) : r < w.heap.length :=
+  hb o r (root_reach hr (self_mem_reachAcc _ _))
+
+/-- an operation that only appends objects, leaves the records of all other owners alone and makes its
+target reach only new objects (or, for a class, objects of existing classes) keeps the invariants -/
+theorem preserve_of_fresh (w w' : World) (t : Owner) (he : Extends w.heap w'.heap)
+    (hrec : ∀ o, o ≠ t → w'.roots o = w.roots o) (hb : Bounded w) (hs : Separated w)
+    (hnew : ∀ r ∈ reach w' t, (w.heap.length ≤ r ∧ r < w'.heap.length) ∨
+      ((∃ n, t = .cls n) ∧ ∃ c, r ∈ reach w (.cls c))) :
+    Bounded w' ∧ Separated w' := by
+  have hsame : ∀ o, o ≠ t → reach w' o = reach w o := fun o ho =>
+    reach_congr (hrec o ho) (fun r hr => he.get (root_lt hb hr))
+  constructor
+  · intro o r hr
+    by_cases ho : o = t
+    · subst ho
+      rcases hnew r hr with h | ⟨_, c, hc⟩
+      · exact h.2
+      · exact Nat.lt_of_lt_of_le (hb _ r hc) he.len
+    · rw [hsame o ho] at hr
+      exact Nat.lt_of_lt_of_le (hb o r hr) he.len
+  · intro i o hoi r hr
+    by_cases hi : Owner.inst i = t
+    · subst hi
+      rw [hsame o hoi]
+      intro hro
+      rcases hnew r hr with h | ⟨⟨n, hn⟩, _⟩
+      · exact absurd (hb o r hro) (Nat.not_lt.2 h.1)
+      · cases hn
+    · rw [hsame _ hi] at hr
+      by_cases ho : o = t
+      · subst ho
+        intro hro
+        rcases hnew r hro with h | ⟨_, c, hc⟩
+        · exact absurd (hb _ r hr) (Nat.not_lt.2 h.1)
+        · exact hs i (.cls c) (by simp) r hr hc
+      · rw [hsame o ho]
+        exact hs i o hoi r hr
+
+/-- everything reachable from the listed objects was allocated at or after `base` -/
+def FreshInv (base : Nat) (st : Heap × List (Name × Ref)) : Prop :=
+  base ≤ st.1.length ∧ ∀ nr ∈ st.2, ∀ x ∈ reachAcc st.1 nr.2, base ≤ x ∧ x < st.1.length
+
+theorem accAt_append_new (h : Heap) (o : Obj) : (h ++ [o])[h.length]? = some o := by simp
+
+theorem FreshInv.extend {base : Nat} {st : Heap × List (Name × Ref)} (hi : FreshInv base st) {h' : Heap}
+    (he : Extends st.1 h') (n : Name) (r : Ref) (hr : ∀ x ∈ reachAcc h' r, base ≤ x ∧ x < h'.length) :
+    FreshInv base (h', st.2 ++ [(n, r)]) := by
+  refine ⟨Nat.le_trans hi.1 he.len, ?_⟩
+  intro nr hnr x hx
+  simp only [List.mem_append, List.mem_singleton] at hnr
+  rcases hnr with hold | rfl
+  · have hlt : nr.2 < st.1.length := (hi.2 nr hold nr.2 (self_mem_reachAcc _ _)).2
+    rw [reachAcc_congr (he.get hlt)] at hx
+    exact ⟨(hi.2 nr hold x hx).1, Nat.lt_of_lt_of_le (hi.2 nr hold x hx).2 he.len⟩
+  · exact hr x hx
+
+theorem reachAcc_new (h : Heap) (a : AccH) :
+    reachAcc (h ++ [Obj.acc a]) h.length = h.length :: (a.dtype.toList ++ a.ownDt.toList ++ a.mergedDt.toList) := by
+  unfold reachAcc Heap.accAt; simp
+
+theorem freshInv_allocView (base : Nat) (st : Heap × List (Name × Ref)) (nv : Name × AccView)
+    (hi : FreshInv base st) : FreshInv base (allocView st nv) := by
+  have hb := hi.1
+  unfold allocView
+  split
+  · rename_i t ht
+    apply hi.extend ⟨_, List.append_assoc _ _ _⟩
+    intro x hx
+    have hlen : (st.1 ++ [Obj.dt t]).length = st.1.length + 1 := by simp
+    rw [← hlen, reachAcc_new] at hx
+    simp only [Option.toList, List.append_nil, List.mem_cons, List.not_mem_nil, or_false] at hx
+    rcases hx with rfl | rfl <;> simp <;> omega
+  · apply hi.extend ⟨_, rfl⟩
+    intro x hx
+    rw [reachAcc_new] at hx
+    simp only [Option.toList, List.append_nil, List.mem_cons, List.not_mem_nil, or_false] at hx
+    subst hx; simp; omega
+
+theorem freshInv_foldl {α : Type} (base : Nat) (f : Heap × List (Name × Ref) → α → Heap × List (Name × Ref))
+    (hf : ∀ st a, FreshInv base st → FreshInv base (f st a)) (l : List α) (st : Heap × List (Name × Ref))
+    (hi : FreshInv base st) : FreshInv base (l.foldl f st) := by
+  induction l generalizing st with
+  | nil => exact hi
+  | cons a l ih => exact ih _ (hf st a hi)
+
+theorem find?_append_new {α : Type} (p : α → Bool) (l : List α) (x : α) (hl : l.find? p = none) (hx : p x = true) :
+    (l ++ [x]).find? p = some x := by
+  rw [List.find?_append, hl]; simp [List.find?, hx]
+
+/-- a new instance reaches only objects created for it -/
+theorem preserve_instantiate (T : Tables) (w : World) (n c : Name) (cfg : List (Name × PropMap))
+    (hadm : w.findInst n = none) (hb : Bounded w) (hs : Separated w) :
+    Bounded (instantiate T w n c cfg) ∧ Separated (instantiate T w n c cfg) := by
+  apply preserve_of_fresh w _ (.inst n) (extends_instantiate T w n c cfg)
+    (fun o ho => (records_step T w (.inst n c cfg) o ho).2) hb hs
+  intro r hr
+  left
+  have hinv := freshInv_foldl w.heap.length allocView (freshInv_allocView _)
+    (instViews T (describeH w (.cls c)) cfg) (w.heap, []) ⟨Nat.le_refl _, by simp⟩
+  have hfind : (instantiate T w n c cfg).findInst n =
+      some ⟨n, c, ((instViews T (describeH w (.cls c)) cfg).foldl allocView (w.heap, [])).2⟩ := by
+    unfold World.findInst instantiate
+    exact find?_append_new _ _ _ hadm (by simp)
+  have hroots : (instantiate T w n c cfg).roots (.inst n) =
+      (((instViews T (describeH w (.cls c)) cfg).foldl allocView (w.heap, [])).2).map (·.2) := by
+    simp only [World.roots, hfind]
+  unfold reach at hr
+  rw [hroots] at hr
+  simp only [List.mem_flatMap, List.mem_map] at hr
+  obtain ⟨x, ⟨nr, hnr, rfl⟩, hx⟩ := hr
+  exact hinv.2 nr hnr r hx
+
+/-! ### what a class is computed from -/
+
+theorem chainOf_layout (w : World) (cv : ClassV) (d : ClassDecl) (hn : cv.decl.name ∉ d.mro.tail) :
+    chainOf (layout w cv) d = chainOf w d := by
+  unfold chainOf
+  generalize d.mro.tail = l at hn
+  induction l with
+  | nil => rfl
+  | cons n l ih =>
+    have hne : n ≠ cv.decl.name := fun h => hn (h ▸ List.mem_cons_self)
+    simp only [List.filterMap_cons, findClass_layout_ne w cv n hne]
+    rw [ih (fun h => hn (List.mem_cons_of_mem _ h))]
+
+theorem chainOf_instantiate (T : Tables) (w : World) (n c : Name) (cfg : List (Name × PropMap)) (d : ClassDecl) :
+    chainOf (instantiate T w n c cfg) d = chainOf w d := rfl
+
+theorem findClass_layout_new (w : World) (cv : ClassV) (hadm : w.findClass cv.decl.name = none) :
+    (layout w cv).findClass cv.decl.name = some (layoutRec w cv) := by
+  unfold World.findClass layout
+  exact find?_append_new _ _ _ hadm (by simp [layoutRec])
+
+/-! ### a new instance shows the copied views -/
+
+/-- every listed object shows the listed view -/
+def ViewsInv (st : Heap × List (Name × Ref)) (views : List (Name × AccView)) : Prop :=
+  st.2.map (fun nr => (nr.1, viewAt st.1 nr.2)) = views.map (fun nv => (nv.1, some nv.2)) ∧
+  ∀ nr ∈ st.2, ∀ x ∈ reachAcc st.1 nr.2, x < st.1.length
+
+theorem viewAt_new (h : Heap) (a : AccH) :
+    viewAt (h ++ [Obj.acc a]) h.length =
+      some ⟨a.isCmd, a.props, treeAt (h ++ [Obj.acc a]) a.dtype⟩ := by
+  unfold viewAt Heap.accAt; simp only [List.getElem?_concat_length]
+
+theorem viewsInv_allocView (st : Heap × List (Name × Ref)) (views : List (Name × AccView)) (nv : Name × AccView)
+    (hi : ViewsInv st views) : ViewsInv (allocView st nv) (views ++ [nv]) := by
+  have hold : ∀ (h' : Heap), Extends st.1 h' → ∀ nr ∈ st.2, viewAt h' nr.2 = viewAt st.1 nr.2 ∧
+      ∀ x ∈ reachAcc h' nr.2, x < h'.length := by
+    intro h' he nr hnr
+    have hcells : ∀ x ∈ reachAcc st.1 nr.2, h'[x]? = st.1[x]? := fun x hx => he.get (hi.2 nr hnr x hx)
+    refine ⟨viewAt_congr hcells, ?_⟩
+    intro x hx
+    rw [reachAcc_congr (hcells nr.2 (self_mem_reachAcc _ _))] at hx
+    exact Nat.lt_of_lt_of_le (hi.2 nr hnr x hx) he.len
+  unfold allocView
+  split
+  · rename_i t ht
+    have he : Extends st.1 (st.1 ++ [Obj.dt t] ++ [Obj.acc ⟨nv.2.isCmd, nv.2.props, some st.1.length, none, none⟩]) :=
+      ⟨_, List.append_assoc _ _ _⟩
+    have hlen : (st.1 ++ [Obj.dt t]).length = st.1.length + 1 := by simp
+    constructor
+    · simp only [List.map_append, List.map_cons, List.map_nil]
+      congr 1
+      · rw [← hi.1]
+        apply List.map_congr_left
+        intro nr hnr
+        rw [(hold _ he nr hnr).1]
+      · rw [← hlen, viewAt_new]
+        have : (st.1 ++ [Obj.dt t] ++ [Obj.acc ⟨nv.2.isCmd, nv.2.props, some st.1.length, none, none⟩]).dtAt st.1.length
+            = some t := by
+          unfold Heap.dtAt; simp
+        simp only [treeAt, this, ← ht]
+    · intro nr hnr x hx
+      simp only [List.mem_append, List.mem_singleton] at hnr
+      rcases hnr with h | rfl
+      · exact (hold _ he nr h).2 x hx
+      · rw [← hlen, reachAcc_new] at hx
+        simp only [Option.toList, List.append_nil, List.mem_cons, List.not_mem_nil, or_false] at hx
+        rcases hx with rfl | rfl <;> simp
+  · rename_i ht
+    have he : Extends st.1 (st.1 ++ [Obj.acc ⟨nv.2.isCmd, nv.2.props, none, none, none⟩]) := ⟨_, rfl⟩
+    constructor
+    · simp only [List.map_append, List.map_cons, List.map_nil]
+      congr 1
+      · rw [← hi.1]
+        apply List.map_congr_left
+        intro nr hnr
+        rw [(hold _ he nr hnr).1]
+      · rw [viewAt_new]
+        simp only [treeAt, ← ht]
+    · intro nr hnr x hx
+      simp only [List.mem_append, List.mem_singleton] at hnr
+      rcases hnr with h | rfl
+      · exact (hold _ he nr h).2 x hx
+      · rw [reachAcc_new] at hx
+        simp only [Option.toList, List.append_nil, List.mem_cons, List.not_mem_nil, or_false] at hx
+        subst hx; simp
+
+theorem viewsInv_foldl (l : List (Name × AccView)) (st : Heap × List (Name × Ref)) (views : List (Name × AccView))
+    (hi : ViewsInv st views) : ViewsInv (l.foldl allocView st) (views ++ l) := by
+  induction l generalizing st views with
+  | nil => simpa using hi
+  | cons a l ih =>
+    have := ih _ _ (viewsInv_allocView st views a hi)
+    simpa using this
+
+/-- the description of a new instance is `instViews` of the description of its class -/
+theorem describe_instantiate (T : Tables) (w : World) (n c : Name) (cfg : List (Name × PropMap))
+    (hadm : w.findInst n = none) :
+    describeH (instantiate T w n c cfg) (.inst n) =
+      (instViews T (describeH w (.cls c)) cfg).map (fun nv => (nv.1, some nv.2)) := by
+  have hinv := viewsInv_foldl (instViews T (describeH w (.cls c)) cfg) (w.heap, []) [] ⟨rfl, by simp⟩
+  have hfind : (instantiate T w n c cfg).findInst n =
+      some ⟨n, c, ((instViews T (describeH w (.cls c)) cfg).foldl allocView (w.heap, [])).2⟩ := by
+    unfold World.findInst instantiate
+    exact find?_append_new _ _ _ hadm (by simp)
+  have hacc : (instantiate T w n c cfg).accessiblesOf (.inst n) =
+      ((instViews T (describeH w (.cls c)) cfg).foldl allocView (w.heap, [])).2 := by
+    simp only [World.accessiblesOf, hfind]
+  have h1 := hinv.1
+  simp only [List.nil_append] at h1
+  show List.map (fun nr => (nr.1, viewAt (instantiate T w n c cfg).heap nr.2))
+      ((instantiate T w n c cfg).accessiblesOf (.inst n)) = _
+  rw [hacc]
+  exact h1
 
 end Frappy.Klass
